@@ -380,6 +380,10 @@ func (x *Exec) callSpec(s *State, fr *Frame, spec *FuncSpec, key string, args []
 			}
 		default:
 			v = x.freshValue(s, t, "ret."+lastSeg(key)+"."+name)
+			// a result pinned down by an ensures of the form `r == term` is replaced by that term
+			if v.Term != nil && v.Term.K == KVar {
+				havocNames[v.Term.Name] = true
+			}
 		}
 		rs = append(rs, v)
 		env[name] = v
